@@ -465,8 +465,9 @@ def tables(cls):
     return {"basic": {"user"}, "gff": {"gff", "user"}, "gb": {"gb", "user"}}[cls]
 
 
-def run_ops(ca, ra, cb, rb, ops, tmp):
-    """None | ("stop", i) | (index of failing op, witness, message)"""
+def run_ops(ca, ra, cb, rb, ops, tmp, trace=None):
+    """None | ("stop", i) | (index of failing op, witness, message); trace receives the abstract state of A
+    before the last operation tried (class, records, file-backed?)"""
     from cogent3.util.deserialise import deserialise_object
     try:
         A, sa = build(ca, ra, tmp)
@@ -483,7 +484,8 @@ def run_ops(ca, ra, cb, rb, ops, tmp):
         for i, op in enumerate(ops):
             k = op[0]
             clsA = _cls_name(A)
-            old, old_items = A, list(sa)
+            if trace is not None:
+                trace.update(cls=clsA, recs=[it[1] for it in sa], fb=any(A is d for d in opened))
             may_raise = None
             try:
                 if k == "add":
@@ -559,10 +561,20 @@ def run_ops(ca, ra, cb, rb, ops, tmp):
                 pass
 
 
+_OPS_MEMO = {}
+
+
+def base(w):
+    """witness without the bracketed detail (which record kind was first missing / extra)"""
+    import re
+    return re.sub(r"\[[^\]]*\]", "", w)
+
+
 def contract_ops(case):
     ca, ra, cb, rb, ops = case
     with _tmpdir() as tmp:
-        r = run_ops(ca, ra, cb, rb, ops, tmp)
+        trace = {}
+        r = run_ops(ca, ra, cb, rb, ops, tmp, trace)
         if r is None:
             return ("ok", True)
         if r[0] == "stop":
@@ -570,19 +582,42 @@ def contract_ops(case):
         i, wit, msg = r
         if i < 0:
             return ("fail", f"ops/{ca}/{wit}", f"{case}: {msg}")
-        # minimise the history: the failing operation alone, then with one predecessor, else the whole prefix
+        op = ops[i]
+        binary = op[0] in ("update", "union", "runion")
+        arg = f"<-{cb}" if binary else ""
+
+        def same(rr, n):
+            return rr is not None and rr[0] == n - 1 and base(rr[1]) == base(wit)
+        # (1) does the failure depend only on the abstract state before the failing operation?  Rebuild that
+        #     state (class, record list, file-backed or not) and apply the operation alone.
+        cls, recs, fb = trace["cls"], trace["recs"], trace["fb"]
+        memo = (cls, fb, op_kind(op), base(wit), cb if binary else None)
+        if memo in _OPS_MEMO:
+            key, m = _OPS_MEMO[memo]
+            return ("fail", key, m + f"  [also found with A = {ca} db of {len(ra)} records, operations {ops}]")
+        sops = ([["write"]] if fb else []) + [op]
+        rbb = rb if binary else []
+        rr = run_ops(cls, recs, cb, rbb, sops, tmp)
+        if same(rr, len(sops)):
+            for rec in list(recs):                       # drop records of A while the failure persists
+                trial = [x for x in recs if x is not rec]
+                r2 = run_ops(cls, trial, cb, rbb, sops, tmp)
+                if same(r2, len(sops)):
+                    recs, rr = trial, r2
+            key = f"ops/{cls}{arg}/{'file-backed db/' if fb else ''}{op_kind(op)}/{base(wit)}"
+            m = f"A = {cls} db of {recs}, B = {cb} db of {rbb}, operations {sops}: {rr[2]}"
+            _OPS_MEMO[memo] = (key, m)
+            return ("fail", key, m + f"  [found with A = {ca} db of {ra}, operations {ops}]")
+        # (2) history dependent: the failing operation with one predecessor, else the whole prefix
         chain = ops[:i + 1]
-        cands = [[ops[i]]] + [[ops[j], ops[i]] for j in range(i)]
-        for c in cands:
-            if len(c) >= len(chain):
-                continue
-            rr = run_ops(ca, ra, cb, rb, c, tmp)
-            if rr is not None and rr[0] not in ("stop",) and rr[0] == len(c) - 1 and rr[1] == wit:
-                chain, msg = c, rr[2]
-                break
-        arg = f"<-{cb}" if chain[-1][0] in ("update", "union", "runion") or any(
-            o[0] in ("update", "union", "runion") for o in chain) else ""
-        return ("fail", f"ops/{ca}{arg}/{'>'.join(op_kind(o) for o in chain)}/{wit}",
+        for c in [[ops[j], ops[i]] for j in range(i)]:
+            if len(c) < len(chain):
+                rr = run_ops(ca, ra, cb, rb, c, tmp)
+                if same(rr, len(c)):
+                    chain, msg = c, rr[2]
+                    break
+        arg = f"<-{cb}" if any(o[0] in ("update", "union", "runion") for o in chain) else ""
+        return ("fail", f"ops/{ca}{arg}/history {'>'.join(op_kind(o) for o in chain)}/{base(wit)}",
                 f"A = {ca} db of {ra}, B = {cb} db of {rb}, operations {chain}: {msg}  [found with {ops}]")
 
 
@@ -687,17 +722,17 @@ def contract_load_gff(case):
         # minimise: drop the seqid filter, the pre-existing db
         if seqids is not None:
             rr = run_load_gff(rows, lpb, None, into, tmp)
-            if rr is not None and rr[0] == r[0]:
+            if rr is not None and base(rr[0]) == base(r[0]):
                 seqids, r = None, rr
         if into is not None:
             rr = run_load_gff(rows, lpb, seqids, None, tmp)
-            if rr is not None and rr[0] == r[0]:
+            if rr is not None and base(rr[0]) == base(r[0]):
                 into, r = None, rr
         multi = "multi-row feature" if len({x[5] for x in rows if x[5] is not None}) < len(
             [x for x in rows if x[5] is not None]) else "single-row features"
         pat = [block_kind(rows, lpb), multi] + (["seqids filter"] if seqids is not None else []) + (
             [f"into {into} db"] if into else [])
-        return ("fail", f"load_gff/{'/'.join(pat)}/{r[0]}",
+        return ("fail", f"load_gff/{'/'.join(pat)}/{base(r[0])}",
                 f"GFF text {gff_text(rows)!r}, lines_per_block={lpb}, seqids={seqids}, db={into}: {r[1]}")
 
 
